@@ -278,3 +278,404 @@ Proof.
   intros Hl H. apply (inv_action_addedge (AGroup l) st (AGroup l') s'); [now rewrite act_all_group|].
   rewrite inv_action_group, H. reflexivity.
 Qed.
+
+(* ================================================================== *)
+(* 4. what the sub-actions of a stroke record                           *)
+(* ================================================================== *)
+Lemma upd_track_rec st s t l b st' : do_upd_track st s t l = Ok b st' -> basic_neutral b.
+Proof.
+  unfold do_upd_track. destruct (negb (has_node st s)); [discriminate|]. destruct (zattr st s KTrack); [|discriminate].
+  destruct (negb (trk_act (ft st))); [intros H; injection H as <- _; exact I|].
+  destruct (walk _ _ _ _ _ _ _ _ _) as [[[st1 tn] ln]|]; [|discriminate].
+  destruct (match (if lin_act (ft st) then l else None) with Some _ => _ | None => _ end). intros H; injection H as <- _; exact I.
+Qed.
+Lemma del_edge_rec st u v b st' : do_del_edge st u v = Ok b st' -> basic_neutral b.
+Proof. unfold do_del_edge. destruct (negb (has_edge st u v)); [discriminate|]. intros H; injection H as <- _; exact I. Qed.
+Lemma add_edge_rec st u v a b st' : do_add_edge st u v a = Ok b st' -> basic_neutral b /\ basic_addedge b.
+Proof.
+  unfold do_add_edge. destruct (negb (has_node st u)); [discriminate|]. destruct (negb (has_node st v)); [discriminate|].
+  intros H; injection H as <- _; split; exact I.
+Qed.
+Lemma del_node_rec st n p b st' : do_del_node st n (Some p) = Ok b st' -> exists saved, b = BDelNode n saved (Some p).
+Proof.
+  unfold do_del_node. destruct (lookup n (nodes (g st))); [|discriminate].
+  destruct (set_pixels st p 0) as [[] st1|]; [|discriminate]. cbn [bind ft upd_g].
+  destruct (negb (trk_act (ft st1))); intros H; injection H as <- _; eauto.
+Qed.
+Lemma upd_seg_rec st n p added b st' : do_upd_seg st n p added = Ok b st' -> b = BUpdSeg n p added.
+Proof.
+  unfold do_upd_seg. destruct (set_pixels _ _ _) as [[] st1|]; [|discriminate]. cbn [bind].
+  destruct (negb (has_node st1 n) && _); [discriminate|]. destruct (negb (has_node st1 n) && _); [discriminate|].
+  intros H. now injection H as <- _.
+Qed.
+Lemma add_node_rec st n a px b st' : do_add_node st n a px = Ok b st' -> b = BAddNode n a px.
+Proof.
+  unfold do_add_node.
+  destruct (negb (haskey KTime a)); [discriminate|]. destruct (negb (haskey KTrack a)); [discriminate|].
+  destruct (match px with None => negb (all_in (pos_keys (ft st)) a) | Some _ => false end); [discriminate|].
+  destruct (match px with Some p => set_pixels st p n | None => Ok tt st end) as [[] st1|e st1]; [|discriminate].
+  cbn [bind]. match goal with |- context [negb (trk_act (ft ?s))] => set (s4 := s) end.
+  destruct (negb (trk_act (ft s4))); [intros H; now injection H as <- _|].
+  destruct (zattr s4 n KTrack); [|discriminate]. destruct (if lin_act (ft s4) then _ else _). intros H; now injection H as <- _.
+Qed.
+
+Lemma acts_all_snoc Q l x : acts_all Q l -> act_all Q x -> acts_all Q (l ++ [x]).
+Proof. intros H1 H2. apply acts_all_app. cbn. auto. Qed.
+
+Lemma udn_preds_rec n ps s acc acts s' : udn_preds n ps s acc = Ok acts s' -> acts_all basic_neutral acc -> acts_all basic_neutral acts.
+Proof.
+  revert s acc; induction ps as [|p r IH]; intros s acc H Hacc; cbn [udn_preds] in H; [injection H as <- _; exact Hacc|].
+  ok_step H acc1 s1 H1. ok_step H b s2 H2. eapply IH; [exact H|]. apply acts_all_snoc; [|eapply del_edge_rec; eauto].
+  destruct (length (successors s p) =? 2)%nat; [|injection H1 as <- _; exact Hacc].
+  destruct (remove1 n (successors s p)); [discriminate|]. destruct (zattr s p KTrack); [|discriminate].
+  ok_step H1 b0 s0 H0. injection H1 as <- _. apply acts_all_snoc; [exact Hacc|eapply upd_track_rec; eauto].
+Qed.
+Lemma udn_succs_rec n cs s acc acts s' : udn_succs n cs s acc = Ok acts s' -> acts_all basic_neutral acc -> acts_all basic_neutral acts.
+Proof.
+  revert s acc; induction cs as [|c r IH]; intros s acc H Hacc; cbn [udn_succs] in H; [injection H as <- _; exact Hacc|].
+  ok_step H b s1 H1. eapply IH; [exact H|]. apply acts_all_snoc; [exact Hacc|eapply del_edge_rec; eauto].
+Qed.
+Lemma udn_orphans_rec os s acc acts s' : udn_orphans os s acc = Ok acts s' -> acts_all basic_neutral acc -> acts_all basic_neutral acts.
+Proof.
+  revert s acc; induction os as [|o r IH]; intros s acc H Hacc; cbn [udn_orphans] in H; [injection H as <- _; exact Hacc|].
+  destruct (zattr s o KTrack); [|discriminate]. ok_step H b s1 H1. eapply IH; [exact H|].
+  apply acts_all_snoc; [exact Hacc|eapply upd_track_rec; eauto].
+Qed.
+
+Lemma udn_core_rec st n p a s' : user_delete_node_core st n (Some p) = Ok a s' ->
+  exists l saved, a = AGroup (l ++ [ABasic (BDelNode n saved (Some p))]) /\ acts_all basic_neutral l.
+Proof.
+  unfold user_delete_node_core. intros H. destruct (negb (has_node st n)); [discriminate|].
+  ok_step H acts1 s1 H1. apply udn_preds_rec in H1; [|exact I].
+  ok_step H acts2 s2 H2. apply udn_succs_rec in H2; [|exact H1].
+  ok_step H ao s3 H3. destruct ao as [acts3 orphans].
+  assert (A3 : acts_all basic_neutral acts3).
+  { destruct (zattr s2 n KTrack) as [T|]; [|discriminate]. destruct (track_neighbors s2 T (time_of s2 n)) as [s2' [pp cc]].
+    destruct pp as [pp|]; [destruct cc as [cc|]|].
+    - ok_step H3 b0 s4 H4. injection H3 as <- _ _. apply acts_all_snoc; [exact H2|]. now destruct (add_edge_rec _ _ _ _ _ _ H4).
+    - injection H3 as <- _ _. exact H2.
+    - injection H3 as <- _ _. exact H2. }
+  ok_step H acts4 s4 H4. apply udn_orphans_rec in H4; [|exact A3].
+  ok_step H b s5 H5. injection H as <- _. apply del_node_rec in H5. destruct H5 as [saved ->]. eauto.
+Qed.
+
+Lemma udn_core_inv_eff st n p a s' X : user_delete_node_core st n (Some p) = Ok a s' ->
+  act_all basic_noadd a /\ inv_eff a X = paint_arr X (fst p) (snd p) n.
+Proof.
+  intros H. apply udn_core_rec in H. destruct H as (l & saved & -> & Hl). split.
+  - rewrite act_all_group. apply acts_all_app. split; [|cbn; auto].
+    eapply acts_all_weaken; [|exact Hl]. intros b; destruct b; cbn; tauto.
+  - rewrite inv_eff_group, inv_eff_list_app. cbn [inv_eff_list inv_eff inv_eff_basic]. now apply inv_eff_list_neutral.
+Qed.
+
+(* undoing the first loop: every overwritten label is written back over its group's pixels *)
+Definition unzero (gs : list (pixels * Z)) (X : list (list Z)) : list (list Z) :=
+  fold_right (fun g Y => if snd g =? 0 then Y else paint_arr Y (fst (fst g)) (snd (fst g)) (snd g)) X gs.
+
+Lemma uus_groups_rec gs s acc acts s' : uus_groups gs s acc = Ok acts s' -> acts_all basic_noadd acc ->
+  acts_all basic_noadd acts /\ forall X, inv_eff_list acts X = inv_eff_list acc (unzero gs X).
+Proof.
+  revert s acc; induction gs as [|[px old] r IH]; intros s acc H Hacc; cbn [uus_groups] in H.
+  - injection H as <- _. auto.
+  - cbn [unzero fold_right fst snd]. fold (unzero r). destruct (old =? 0); [eapply IH; eauto|].
+    destruct (match seg s with Some sg0 => mask_of sg0 (fst px) old | None => [] end).
+    + ok_step H a s1 H1. unfold user_delete_node in H1. apply top_wrap_false_ok in H1.
+      destruct (IH _ _ H) as [A E].
+      { apply acts_all_snoc; [exact Hacc|]. now destruct (udn_core_inv_eff _ _ _ _ _ [] H1). }
+      split; [exact A|]. intros X. rewrite E, inv_eff_list_app. cbn [inv_eff_list]. f_equal. now destruct (udn_core_inv_eff _ _ _ _ _ (unzero r X) H1).
+    + ok_step H b s1 H1. apply upd_seg_rec in H1. subst b.
+      destruct (IH _ _ H) as [A E]; [apply acts_all_snoc; [exact Hacc|exact I]|].
+      split; [exact A|]. intros X. rewrite E, inv_eff_list_app. reflexivity.
+Qed.
+
+Lemma ude_core_rec st u v a s' : user_delete_edge_core st u v = Ok a s' -> act_all basic_neutral a.
+Proof.
+  unfold user_delete_edge_core. intros H. destruct (negb (has_edge st u v)); [discriminate|].
+  ok_step H b1 s H1. apply del_edge_rec in H1. ok_step H acts s2 H2. injection H as <- _. rewrite act_all_group.
+  destruct (out_degree s u =? 0).
+  - ok_step H2 b2 s3 H3. injection H2 as <- _. apply upd_track_rec in H3. cbn. auto.
+  - destruct (out_degree s u =? 1); [|discriminate].
+    destruct (successors s u) as [|sib r]; [discriminate|]. destruct (zattr s u KTrack) as [t|]; [|discriminate].
+    ok_step H2 b2 s3 H3. apply upd_track_rec in H3. destruct (zattr s3 v KTrack); [|discriminate].
+    ok_step H2 b3 s4 H4. apply upd_track_rec in H4. injection H2 as <- _. cbn. auto.
+Qed.
+
+Lemma uan_cut_rec es s acc acts s' : uan_cut es s acc = Ok acts s' -> acts_all basic_neutral acc -> acts_all basic_neutral acts.
+Proof.
+  revert s acc; induction es as [|e r IH]; intros s acc H Hacc; cbn [uan_cut] in H; [injection H as <- _; exact Hacc|].
+  ok_step H x s1 H1. eapply IH; [exact H|]. apply acts_all_snoc; [exact Hacc|].
+  unfold user_delete_edge in H1. apply top_wrap_false_ok in H1. eapply ude_core_rec; eauto.
+Qed.
+
+(* UserAddNode with pixels: what is recorded, and where the new node lives *)
+Lemma uan_core_rec st n a p force x s' :
+  user_add_node_core st n a (Some p) force = Ok x s' ->
+  NoDup (keys a) -> ~ In KTime (rp_act (ft st)) ->
+  exists a' pre post,
+    x = AGroup (pre ++ ABasic (BAddNode n a' (Some p)) :: post) /\
+    acts_all basic_neutral pre /\ acts_all basic_addedge post /\
+    forall t, lookup KTime a = Some (VZ t) -> time_of s' n = t.
+Proof.
+  unfold user_add_node_core. intros H Hnd Hkt.
+  destruct (lookup KTime a) as [tv|] eqn:Ltime; [|discriminate]. destruct (lookup KTrack a) as [kv|]; [|discriminate].
+  destruct (has_node st n) eqn:Hh; [discriminate|].
+  assert (KT : KTime <> KTrack) by (unfold KTime, KTrack; lia). assert (KL : KTime <> KLin) by (unfold KTime, KLin; lia).
+  destruct (if has_track_at st _ _ then _ else _) as [T a1] eqn:Ea1.
+  assert (A1 : NoDup (keys a1) /\ lookup KTime a1 = Some tv).
+  { destruct (has_track_at st _ _); injection Ea1 as _ <-; [|auto]. split; [now apply NoDup_keys_set|now rewrite lookup_set_neq]. }
+  clear Ea1. destruct A1 as [Hnd1 Lt1].
+  assert (Ktn := P_track_neighbors keepN keepN_refl keepN_bk st T (match tv with VZ z => z | _ => 0 end)).
+  destruct (track_neighbors st T _) as [st0 [pred succ]]. cbn [fst] in Ktn.
+  ok_step H conflicts s1 H1. assert (E1 : s1 = st0) by (rewrite <- (uan_conflicts_state st0 pred succ force), H1; reflexivity). subst s1.
+  cbn [negb] in H.
+  ok_step H acts s2 H2.
+  assert (K2 := P_ok keepN _ _ _ _ (P_uan_cut keepN keepN_refl keepN_trans keepN_del_edge keepN_upd_track _ _ _) H2).
+  apply uan_cut_rec in H2; [|exact I].
+  set (a2 := if haskey KLin a1 then a1 else _) in H.
+  assert (A2 : NoDup (keys a2) /\ lookup KTime a2 = Some tv).
+  { unfold a2. destruct (haskey KLin a1); [auto|].
+    destruct (match pred, succ with Some p0, _ => zattr s2 p0 KLin | None, Some c => zattr s2 c KLin | None, None => Some (next_lin s2) end); [|auto].
+    split; [now apply NoDup_keys_set|now rewrite lookup_set_neq]. }
+  destruct A2 as [Hnd2 Lt2]. clearbody a2.
+  ok_step H acts' s3 H3.
+  assert (K3 : keepN s2 s3 /\ acts_all basic_neutral acts').
+  { destruct pred as [pp|]; [destruct succ as [cc|]|].
+    - ok_step H3 b0 s4 H4. injection H3 as <- <-. split; [exact (P_ok keepN _ _ _ _ (keepN_del_edge _ _ _) H4)|].
+      apply acts_all_snoc; [exact H2|eapply del_edge_rec; eauto].
+    - injection H3 as <- <-. split; [apply keepN_refl|exact H2].
+    - injection H3 as <- <-. split; [apply keepN_refl|exact H2]. }
+  destruct K3 as [K3 N3].
+  ok_step H b s4 H4. assert (Hb := add_node_rec _ _ _ _ _ _ H4). subst b.
+  (* the node is new at that point, and KTime is no regionprops key: the time attribute is the one given *)
+  assert (K03 : keepN st s3) by (eapply keepN_trans; [exact Ktn|eapply keepN_trans; eauto]).
+  destruct K03 as (F3 & I3 & _).
+  assert (Hn3 : ~ is_node s3 n).
+  { unfold is_node. rewrite I3. intros Hin. apply is_node_haskey in Hin. congruence. }
+  assert (T4 : forall t, tv = VZ t -> time_of s4 n = t).
+  { intros t ->. apply do_add_node_ok in H4. destruct H4 as (st1 & Hsp & Hg & _ & _).
+    apply set_pixels_ok in Hsp. destruct Hsp as (sg & _ & _ & ->).
+    assert (Hn1 : ~ is_node (upd_seg s3 (Some (paint_arr sg (fst p) (snd p) n))) n) by exact Hn3.
+    destruct (add_node_core_spec _ n a2 Hn1) as (_ & _ & _ & _ & C5 & _).
+    rewrite (time_of_g _ _ n Hg). unfold time_of, zattr. rewrite (C5 KTime (VZ t)); auto. cbn [ft upd_seg]. now rewrite F3. }
+  ok_step H acts'' s5 H5.
+  assert (K5 : nodes (g s5) = nodes (g s4) /\ exists post1, acts'' = acts' ++ ABasic (BAddNode n a2 (Some p)) :: post1 /\ acts_all basic_addedge post1).
+  { destruct pred as [pp|].
+    - ok_step H5 b' s6 H6. injection H5 as <- <-. destruct (add_edge_effect s4 pp n []) as (_ & _ & E). rewrite H6 in E. cbn [rstate] in E.
+      split; [exact E|]. exists [ABasic b']. split; [reflexivity|]. cbn. split; [|exact I]. now destruct (add_edge_rec _ _ _ _ _ _ H6).
+    - injection H5 as <- <-. split; [reflexivity|]. exists []. split; [reflexivity|exact I]. }
+  destruct K5 as (G5 & post1 & -> & P1).
+  ok_step H acts''' s6 H6.
+  assert (K6 : nodes (g s6) = nodes (g s5) /\ exists post2, acts''' = acts' ++ ABasic (BAddNode n a2 (Some p)) :: post2 /\ acts_all basic_addedge post2).
+  { destruct succ as [cc|].
+    - ok_step H6 b' s7 H7. injection H6 as <- <-. destruct (add_edge_effect s5 n cc []) as (_ & _ & E). rewrite H7 in E. cbn [rstate] in E.
+      split; [exact E|]. exists (post1 ++ [ABasic b']). split; [now rewrite <- app_assoc|].
+      apply acts_all_snoc; [exact P1|]. now destruct (add_edge_rec _ _ _ _ _ _ H7).
+    - injection H6 as <- <-. split; [reflexivity|]. exists post1. auto. }
+  destruct K6 as (G6 & post2 & -> & P2).
+  injection H as <- <-. exists a2, acts', post2. split; [reflexivity|]. split; [exact N3|]. split; [exact P2|].
+  intros t Et. injection Et as ->. unfold time_of, zattr, attr, node_attrs. rewrite G6, G5. now apply T4.
+Qed.
+
+(* ================================================================== *)
+(* 5. the array after undoing the first loop, pointwise                 *)
+(* ================================================================== *)
+Lemma unzero_same_shape gs Y : same_shape (unzero gs Y) Y.
+Proof.
+  induction gs as [|g r IH]; cbn [unzero fold_right]; [apply same_shape_refl|]. fold (unzero r Y).
+  match goal with |- context [if ?c then _ else _] => destruct c end; [exact IH|].
+  eapply same_shape_trans; [apply paint_same_shape|exact IH].
+Qed.
+
+Lemma unzero_pointwise gs Y x t t' i : 0 <= t -> 0 <= t' ->
+  (forall g, In g gs -> fst (fst g) = t) ->
+  (forall g, In g gs -> snd g <> 0 -> In (Z.of_nat i) (snd (fst g)) -> snd g = x) ->
+  label_at (unzero gs Y) t' i =
+    if (t' =? t) && existsb (fun g => negb (snd g =? 0) && memz (Z.of_nat i) (snd (fst g))) gs && (i <? length (frame_of Y t))%nat
+    then x else label_at Y t' i.
+Proof.
+  intros Ht Ht'. induction gs as [|g r IH]; intros Hfr Hx; cbn [unzero fold_right existsb].
+  - now rewrite andb_false_r.
+  - fold (unzero r Y).
+    assert (IHr := IH (fun g' Hg' => Hfr g' (or_intror Hg')) (fun g' Hg' => Hx g' (or_intror Hg'))). clear IH.
+    assert (Hgt : fst (fst g) = t) by (apply Hfr; now left).
+    destruct (Z.eqb_spec (snd g) 0) as [E0|E0]; cbn [negb andb orb]; [exact IHr|].
+    rewrite Hgt, label_at_paint by assumption. destruct (unzero_same_shape r Y) as [_ Sh]. rewrite Sh, IHr.
+    destruct (t' =? t); cbn [andb]; [|reflexivity].
+    destruct (i <? length (frame_of Y t))%nat; [|now rewrite !andb_false_r]. rewrite !andb_true_r.
+    destruct (memz (Z.of_nat i) (snd (fst g))) eqn:Em; cbn [orb]; [|reflexivity].
+    apply Hx; [now left|exact E0|now apply memz_In].
+Qed.
+
+(* Z is the array just before the first loop is undone: zero on the painted pixels, the old array elsewhere *)
+Lemma undo_first_loop sg t idx nv Z : frame_ok sg t = true -> same_shape Z sg ->
+  (forall i, In (Z.of_nat i) (all_pixels (paint_groups sg t idx nv)) -> label_at Z t i = 0) ->
+  (forall t' i, 0 <= t' -> ~ (t' = t /\ In (Z.of_nat i) (all_pixels (paint_groups sg t idx nv))) -> label_at Z t' i = label_at sg t' i) ->
+  unzero (paint_groups sg t idx nv) Z = sg.
+Proof.
+  intros Hf ShZ P1 P2. assert (Ht0 : 0 <= t) by (apply frame_ok_range in Hf; lia).
+  set (groups := paint_groups sg t idx nv) in *.
+  apply arr_ext; [eapply same_shape_trans; [apply unzero_same_shape|exact ShZ]|]. intros t' i Ht'.
+  rewrite (unzero_pointwise groups Z (label_at sg t i) t t' i Ht0 Ht').
+  - destruct ((t' =? t) && existsb (fun g => negb (snd g =? 0) && memz (Z.of_nat i) (snd (fst g))) groups && (i <? length (frame_of Z t))%nat) eqn:Ec.
+    + apply andb_true_iff in Ec. destruct Ec as [Ec _]. apply andb_true_iff in Ec. destruct Ec as [E1 _]. apply Z.eqb_eq in E1. now subst.
+    + destruct (in_dec Z.eq_dec (Z.of_nat i) (all_pixels groups)) as [Hin|Hnin].
+      * (* painted pixel whose group was not written back: its old label is 0 *)
+        destruct (Z.eqb_spec t' t) as [->|Hne]; [|apply P2; [exact Ht'|tauto]].
+        rewrite (P1 i Hin). apply changed_In in Hin. destruct Hin as (Hi & Hidx & Hnv).
+        destruct (Z.eq_dec (label_at sg t i) 0) as [E0|E0]; [now symmetry|]. exfalso.
+        destruct (paint_groups_cover sg t idx nv (Z.of_nat i) (label_at sg t i)) as (g & Hg & Hsg & Hp); [apply io_of_In; exists i; auto|].
+        assert (Hex : existsb (fun g => negb (snd g =? 0) && memz (Z.of_nat i) (snd (fst g))) groups = true).
+        { apply existsb_exists. exists g. split; [exact Hg|]. cbn beta. apply andb_true_iff. split; [apply negb_true_iff, Z.eqb_neq; intros E; apply E0; rewrite <- Hsg; exact E|now apply memz_In]. }
+        destruct ShZ as [_ ShZ]. rewrite ShZ in Ec. apply Nat.ltb_lt in Hi. rewrite Hex, Hi in Ec. cbn in Ec. discriminate.
+      * apply P2; [exact Ht'|]. intros [_ H]. contradiction.
+  - intros g Hg. apply paint_groups_In in Hg. tauto.
+  - intros g Hg _ Hp. apply paint_groups_In in Hg. destruct Hg as (_ & _ & Hgi). apply Hgi in Hp.
+    apply io_of_In in Hp. destruct Hp as (j & Hj & _ & _ & E & _). apply Nat2Z.inj in Hj. subst j. now symmetry.
+Qed.
+
+(* ================================================================== *)
+(* 6. undo of a stroke                                                  *)
+(* ================================================================== *)
+Lemma uus_core_cases st nv groups T force a pl s0 :
+  user_update_seg_core st nv groups T force = Ok (a, pl) s0 ->
+  exists acts s1, uus_groups groups st [] = Ok acts s1 /\
+    ( ((groups = [] \/ nv = 0) /\ a = AGroup acts /\ s0 = s1)
+    \/ (exists px0 o r b, groups = (px0, o) :: r /\ nv <> 0 /\
+          do_upd_seg s1 nv (fst px0, all_pixels groups) true = Ok b s0 /\ a = AGroup (acts ++ [ABasic b]))
+    \/ (exists px0 o r x, groups = (px0, o) :: r /\ nv <> 0 /\ has_node s1 nv = false /\
+          user_add_node_core s1 nv [(KTime, VZ (fst px0)); (KTrack, VZ T)] (Some (fst px0, all_pixels groups)) force = Ok x s0 /\
+          a = AGroup (acts ++ [x])) ).
+Proof.
+  unfold user_update_seg_core. intros H. destruct (seg st); [|discriminate].
+  destruct (negb (nv =? 0) && _ && has_node st nv && _); [discriminate|].
+  ok_step H acts s1 H1. exists acts, s1. split; [exact H1|].
+  destruct groups as [|[px0 old0] gr] eqn:Eg; [injection H as <- _ <-; left; auto|].
+  destruct (Z.eqb_spec nv 0) as [E0|E0]; [injection H as <- _ <-; left; auto|].
+  fold (all_pixels ((px0, old0) :: gr)) in H. set (allpx := all_pixels ((px0, old0) :: gr)) in *. cbv zeta in H.
+  destruct (has_node s1 nv) eqn:Hh.
+  - ok_step H b s2 H2. injection H as <- _ <-. right. left. exists px0, old0, gr, b. auto.
+  - match type of H with context [user_add_node ?x1 ?x2 ?x3 ?x4 ?x5 ?x6] => destruct (user_add_node x1 x2 x3 x4 x5 x6) as [x s2|e s2] eqn:H2 end.
+    + injection H as <- _ <-. unfold user_add_node in H2. apply top_wrap_false_ok in H2. right. right. exists px0, old0, gr, x. auto.
+    + destruct e; try discriminate. destruct (rollback _ s2); discriminate.
+Qed.
+
+Lemma finish_top_g s a p : g (finish_top s a p) = g s /\ ft (finish_top s a p) = ft s.
+Proof. unfold finish_top, hist_add. destruct (redo_stack s); auto. Qed.
+
+Lemma undo_after_top s0 a pl r st2 : undo (finish_top s0 a pl) = Ok r st2 ->
+  exists b s, inv_action (finish_top s0 a pl) a = Ok b s /\ r = true /\ seg st2 = seg s.
+Proof.
+  set (st1 := finish_top s0 a pl).
+  assert (Hu : exists X, undo_stack st1 = X ++ [a] /\ redo_stack st1 = []).
+  { unfold st1, finish_top, hist_add. destruct (redo_stack s0); cbn; eauto. }
+  destruct Hu as (X & Hun & Hre). unfold undo. rewrite Hun, Hre, app_length. cbn [length].
+  destruct (Nat.leb_spec (length X + 1) 0) as [Hle|_]; [lia|].
+  replace (length X + 1 - 0 - 1)%nat with (length X) by lia.
+  rewrite nth_error_app2 by lia. rewrite Nat.sub_diag. cbn [nth_error].
+  intros H. ok_step H b s H1. injection H as <- <-. exists b, s. auto.
+Qed.
+
+(* C07: undoing a successful stroke restores the previous array, bit for bit *)
+Theorem paint_undo st nv t idx T force a st1 sg r st2 :
+  paint st nv t idx T force = Ok a st1 -> seg st = Some sg ->
+  W_seg st -> ~ In KTime (rp_act (ft st)) ->
+  undo st1 = Ok r st2 ->
+  r = true /\ seg st2 = Some sg.
+Proof.
+  intros Hp Hs HW Hkt Hu.
+  destruct (paint_exact _ _ _ _ _ _ _ _ _ Hp Hs) as (Hf & sg' & Hs1 & Sh' & P').
+  assert (Ht0 : 0 <= t) by (apply frame_ok_range in Hf; lia).
+  unfold paint in Hp. rewrite Hs, Hf in Hp. cbn [negb] in Hp.
+  set (groups := paint_groups sg t idx nv) in *. fold (all_pixels groups) in Hp.
+  set (painted := upd_seg st (Some (upd_frame (Z.to_nat t) (fun f => write_frame 0 f (all_pixels groups) nv) sg))) in *.
+  destruct (user_update_seg painted nv groups T force) as [a0 s00|e0 s00] eqn:Huu; [|discriminate]. injection Hp as -> ->.
+  unfold user_update_seg in Huu. destruct (user_update_seg_core painted nv groups T force) as [[a1 pl] s0|e1 s0] eqn:Hc; [|discriminate].
+  injection Huu as -> <-.
+  apply undo_after_top in Hu. destruct Hu as (b & s & Hinv & -> & Es). split; [reflexivity|]. rewrite Es. clear Es st2.
+  destruct (finish_top_g s0 a pl) as [Gt Ft]. set (st1 := finish_top s0 a pl) in *.
+  (* the painted array, in terms of the old one *)
+  assert (HP2 : forall t' i, 0 <= t' -> ~ (t' = t /\ In (Z.of_nat i) (all_pixels groups)) ->
+            label_at sg' t' i = label_at sg t' i \/ (t' = t /\ label_at sg t i = nv /\ label_at sg' t i = nv)).
+  { intros t' i Ht' Hno. rewrite P' by exact Ht'.
+    destruct ((t' =? t) && memz (Z.of_nat i) idx && (i <? length (frame_of sg t))%nat) eqn:Ec; [|now left].
+    apply andb_true_iff in Ec. destruct Ec as [Ec E3]. apply andb_true_iff in Ec. destruct Ec as [E1 E2].
+    apply Z.eqb_eq in E1. subst t'. apply memz_In in E2. apply Nat.ltb_lt in E3.
+    destruct (Z.eq_dec (label_at sg t i) nv) as [E|E]; [|exfalso; apply Hno; split; [reflexivity|apply changed_In; auto]].
+    right. split; [reflexivity|split; [exact E|]]. rewrite P' by exact Ht0. apply memz_In in E2. apply Nat.ltb_lt in E3. now rewrite Z.eqb_refl, E2, E3. }
+  assert (HP1 : forall i, In (Z.of_nat i) (all_pixels groups) -> (i < length (frame_of sg t))%nat /\ label_at sg' t i = nv).
+  { intros i Hin. apply changed_In in Hin. destruct Hin as (Hi & Hidx & _). split; [exact Hi|].
+    rewrite P' by exact Ht0. apply memz_In in Hidx. apply Nat.ltb_lt in Hi. now rewrite Z.eqb_refl, Hidx, Hi. }
+  apply uus_core_cases in Hc. destruct Hc as (acts & s1 & Hg & Hcases).
+  destruct (uus_groups_rec _ _ _ _ _ Hg I) as [Anoadd Eacts]. cbn [inv_eff_list] in Eacts.
+  destruct (uus_groups_nodes _ _ _ _ _ Hg) as [Fs1 Ns1].
+  assert (Hseg1 : seg st1 = Some sg') by exact Hs1.
+  destruct Hcases as [(Hz & -> & ->)|[(px0 & o & gr & b0 & Eg & Hnv & Hd & ->)|(px0 & o & gr & x & Eg & Hnv & Hh & Hadd & ->)]].
+  - (* erase, or nothing to change *)
+    rewrite (inv_action_seg _ _ _ _ _ ltac:(rewrite act_all_group; exact Anoadd) Hinv Hseg1). f_equal.
+    rewrite inv_eff_group, Eacts. apply undo_first_loop; [exact Hf|exact Sh'| |].
+    + intros i Hin. destruct Hz as [Hz|Hz]; [unfold groups in Hin; fold groups in Hin; rewrite Hz in Hin; destruct Hin|]. subst nv. now apply HP1.
+    + intros t' i Ht' Hno. destruct (HP2 t' i Ht' Hno) as [E|(-> & E1 & E2)]; [exact E|congruence].
+  - (* the label is an existing node: it was grown *)
+    apply upd_seg_rec in Hd. subst b0.
+    assert (Hall : act_all basic_noadd (AGroup (acts ++ [ABasic (BUpdSeg nv (fst px0, all_pixels groups) true)]))).
+    { rewrite act_all_group. apply acts_all_snoc; [exact Anoadd|exact I]. }
+    rewrite (inv_action_seg _ _ _ _ _ Hall Hinv Hseg1). f_equal.
+    rewrite inv_eff_group, inv_eff_list_app, Eacts. cbn [inv_eff_list inv_eff inv_eff_basic fst snd negb].
+    assert (Hpx0 : fst px0 = t).
+    { assert (Hin : In (px0, o) groups) by (rewrite Eg; now left). apply paint_groups_In in Hin. tauto. }
+    rewrite Hpx0. destruct (paint_same_shape sg' t (all_pixels groups) 0) as [ShA ShB].
+    apply undo_first_loop; [exact Hf|eapply same_shape_trans; [apply paint_same_shape|exact Sh']| |].
+    + intros i Hin. rewrite label_at_paint by assumption. destruct (HP1 i Hin) as [Hi _].
+      destruct Sh' as [_ Sh']. rewrite Sh'. apply memz_In in Hin. apply Nat.ltb_lt in Hi. now rewrite Z.eqb_refl, Hin, Hi.
+    + intros t' i Ht' Hno. rewrite label_at_paint by assumption.
+      destruct ((t' =? t) && memz (Z.of_nat i) (all_pixels groups) && (i <? length (frame_of sg' t))%nat) eqn:Ec.
+      * exfalso. apply Hno. apply andb_true_iff in Ec. destruct Ec as [Ec _]. apply andb_true_iff in Ec. destruct Ec as [E1 E2].
+        split; [now apply Z.eqb_eq|now apply memz_In].
+      * destruct (HP2 t' i Ht' Hno) as [E|(-> & E1 & E2)]; [exact E|congruence].
+  - (* a new label: a node was added *)
+    assert (Hpx0 : fst px0 = t).
+    { assert (Hin : In (px0, o) groups) by (rewrite Eg; now left). apply paint_groups_In in Hin. tauto. }
+    rewrite Hpx0 in Hadd.
+    assert (Hkt1 : ~ In KTime (rp_act (ft s1))) by (rewrite Fs1; exact Hkt).
+    assert (Hnd : NoDup (keys [(KTime, VZ t); (KTrack, VZ T)])).
+    { cbn. constructor; [intros [E|[]]; unfold KTime, KTrack in E; discriminate|constructor; [tauto|constructor]]. }
+    destruct (uan_core_rec _ _ _ _ _ _ _ Hadd Hnd Hkt1) as (a' & pre & post & -> & Npre & Npost & Htime).
+    assert (Htn : time_of s0 nv = t) by (apply Htime; reflexivity).
+    (* the label does not occur in the old frame: it was no node *)
+    assert (Hnot : ~ is_node st nv).
+    { intros Hin. assert (Hin1 : is_node s1 nv).
+      { apply Ns1; [exact Hin|]. intros g0 Hg0. right. apply paint_groups_In in Hg0. destruct Hg0 as (_ & (p & Hp) & _).
+        apply io_of_In in Hp. destruct Hp as (j & _ & _ & _ & _ & Hne). exact Hne. }
+      apply is_node_haskey in Hin1. congruence. }
+    assert (Hfree : forall i, label_at sg t i <> nv).
+    { intros i E. apply (W_seg_iff _ _ Hs) in HW. destruct HW as (_ & I2 & _).
+      destruct (I2 t i Hf) as [Hin _]; [congruence|]. rewrite E in Hin. contradiction. }
+    (* split the inversion: post (edges), DeleteNode, pre, first loop *)
+    rewrite inv_action_group in Hinv. ok_step Hinv l' s5 Hl. injection Hinv as _ <-.
+    apply inv_list_app in Hl. destruct Hl as (r2 & s2 & r1 & Hx & Hacts).
+    cbn [inv_list bind] in Hx. ok_step Hx x' s3 Hx1. injection Hx as _ <-.
+    rewrite inv_action_group in Hx1. ok_step Hx1 lx s4 Hlx. injection Hx1 as _ <-.
+    apply inv_list_app in Hlx. destruct Hlx as (q2 & s6 & q1 & Hpost & Hpre).
+    cbn [inv_list] in Hpost. ok_step Hpost accr sp Hp1. ok_step Hpost bx s7 Hdel. injection Hpost as _ <-.
+    destruct (inv_list_addedge _ _ _ _ Npost Hp1) as [Esp Gsp].
+    cbn [inv_action inv_basic] in Hdel. ok_step Hdel bd s8 Hd. injection Hdel as _ <-.
+    assert (Hsp : seg sp = Some sg') by congruence.
+    assert (Htp : time_of sp nv = t).
+    { unfold time_of, zattr, attr, node_attrs. rewrite Gsp, Gt. exact Htn. }
+    apply del_node_effect in Hd. destruct Hd as (_ & _ & _ & _ & He). cbn [eff_pixels] in He.
+    rewrite (get_pixels_spec _ _ _ Hsp), Htp in He. destruct He as (sgx & Hsx & _ & Hs7). rewrite Hsp in Hsx. injection Hsx as <-. cbn [fst snd] in Hs7.
+    set (Z := paint_arr sg' t (mask_of sg' t nv) 0) in *.
+    assert (Npre' : acts_all basic_noadd pre) by (eapply acts_all_weaken; [|exact Npre]; intros bb; destruct bb; cbn; tauto).
+    assert (Hs6 := inv_list_seg _ _ _ _ _ Npre' Hpre Hs7). rewrite (inv_eff_list_neutral _ _ Npre) in Hs6.
+    rewrite (inv_list_seg _ _ _ _ _ Anoadd Hacts Hs6). f_equal. rewrite Eacts.
+    apply undo_first_loop; [exact Hf|eapply same_shape_trans; [apply paint_same_shape|exact Sh']| |].
+    + intros i Hin. unfold Z. rewrite label_at_paint by assumption. destruct (HP1 i Hin) as [Hi Hl].
+      assert (Hm : memz (Z.of_nat i) (mask_of sg' t nv) = true).
+      { apply memz_In, mask_of_In_nat. destruct Sh' as [_ Sh']. rewrite Sh'. auto. }
+      destruct Sh' as [_ Sh']. rewrite Sh'. apply Nat.ltb_lt in Hi. now rewrite Z.eqb_refl, Hm, Hi.
+    + intros t' i Ht' Hno. unfold Z. rewrite label_at_paint by assumption.
+      destruct (HP2 t' i Ht' Hno) as [E|(-> & E1 & E2)]; [|exfalso; now apply (Hfree i)].
+      destruct ((t' =? t) && memz (Z.of_nat i) (mask_of sg' t nv) && (i <? length (frame_of sg' t))%nat) eqn:Ec; [|exact E].
+      exfalso. apply andb_true_iff in Ec. destruct Ec as [Ec _]. apply andb_true_iff in Ec. destruct Ec as [E1 E2].
+      apply Z.eqb_eq in E1. subst t'. apply memz_In, mask_of_In_nat in E2. destruct E2 as [_ E2]. rewrite E in E2. now apply (Hfree i).
+Qed.
